@@ -26,7 +26,7 @@ Drop(fn, K)   == [x \in DOMAIN fn \ K |-> fn[x]]
 \*   pfx \in {"localhost","localhop","other"}, local (scope of the arrival face), inface,
 \*   mod, verb, hasParams, hasName, name, faceId (-1 absent), cost, origin, flags (-1 absent),
 \*   flagsMask \in {"none", "both", "flags", "mask"} (faces/update), verb = "" for a name too short to carry a verb
-\*   strat \in {"", "ok", "bare", "unknown", "badver", "alien", "empty"}, stratName, capacity (-1 absent; -2: not representable), mtu (-1 absent)
+\*   strat \in {"", "ok", "bare", "unknown", "badver", "alien", "empty", "trailing" (a component after the version)}, stratName, capacity (-1 absent; -2: not representable), mtu (-1 absent)
 \*   pers (faces/update: FacePersistency, -1 absent), fl / mk (faces/update with flagsMask = "both": the Flags and Mask values; bit 1 = local
 \*   fields, bit 4 = congestion marking)
 \*   exp (rib/register: ExpirationPeriod in ms, -1 absent)
@@ -50,7 +50,7 @@ Bit(x, b) == (x \div b) % 2 = 1
 Malformed(c) ==
   \/ ~c.hasParams
   \/ (c.mod \in {"rib", "fib", "strategy-choice"} /\ ~c.hasName)
-  \/ (c.mod = "strategy-choice" /\ c.verb = "set" /\ c.strat # "ok")   \* absent, bare prefix, unknown name, bad version, foreign prefix, empty name
+  \/ (c.mod = "strategy-choice" /\ c.verb = "set" /\ c.strat # "ok")   \* absent, bare prefix, unknown name, bad version, foreign prefix, empty name, trailing component
   \/ (c.verb \in {"register", "add-nexthop"} /\ c.faceId > 0 /\ c.faceId \notin DOMAIN faces)
   \/ (c.mod = "strategy-choice" /\ c.verb = "unset" /\ c.name = <<>>)
   \/ (c.mod = "cs" /\ c.capacity = -2)
